@@ -19,7 +19,7 @@ PROPS = {
         "modules": ["Ezpz.Proofs.Assembly", "Ezpz.Proofs.AssemblyPerm", "Ezpz.Proofs.Rename", "Ezpz.Proofs.EquivHelpers", "Ezpz.Real.Equivariance", "Ezpz.Real.EquivarianceRenumber", "Ezpz.Proofs.Relabel", "Ezpz.Real.EquivarianceEntry", "Ezpz.Real.GaussNewton", "Ezpz.Real.StopTests", "Ezpz.Properties.C10"],
         "suites": [
             {"suite": "kernels", "quick": (750,), "thorough": (10000,)},
-            {"suite": "trace", "quick": (2000, "planted,linear,prio,contra,collapsed,pinned"), "thorough": (18000, "planted,linear,prio,contra,caps,conflict,collapsed,pinned")},
+            {"suite": "trace", "quick": (2000, "planted,linear,prio,contra,collapsed,pinned,large"), "thorough": (18000, "planted,linear,prio,contra,caps,conflict,collapsed,pinned,large")},
         ],
         "oracles": [
             {"bin": "oracle_c12", "quick": ("{seed}", "4000"), "thorough": ("{seed}", "20000")},
@@ -33,7 +33,7 @@ PROPS = {
         "modules": ["Ezpz.Proofs.Lint", "Ezpz.Real.Lint", "Ezpz.Proofs.Warnings"],
         "suites": [
             {"suite": "kernels", "quick": (750,), "thorough": (10000,)},
-            {"suite": "trace", "quick": (2000, "planted,prio,contra,malformed,conflict,collapsed,pinned"), "thorough": (18000, "planted,prio,contra,malformed,conflict,linear,caps,collapsed,pinned")},
+            {"suite": "trace", "quick": (2000, "planted,prio,contra,malformed,conflict,collapsed,pinned,large"), "thorough": (18000, "planted,prio,contra,malformed,conflict,linear,caps,collapsed,pinned,large")},
         ],
         "oracles": [
             {"bin": "oracle_c15", "quick": ("{seed}", "10000"), "thorough": ("{seed}", "60000")},
@@ -61,7 +61,7 @@ PROPS = {
     "C17": {
         "modules": ["Ezpz.Proofs.Assembly", "Ezpz.Proofs.Union", "Ezpz.Real.Union", "Ezpz.Real.UnionEntry", "Ezpz.Real.GaussNewton2", "Ezpz.Real.StopTests", "Ezpz.Properties.C06"],
         "suites": [
-            {"suite": "trace", "quick": (2000, "planted,linear,prio,contra,pinned,collapsed"), "thorough": (18000, "planted,linear,prio,contra,caps,conflict,pinned,collapsed")},
+            {"suite": "trace", "quick": (2000, "planted,linear,prio,contra,pinned,collapsed,large"), "thorough": (18000, "planted,linear,prio,contra,caps,conflict,pinned,collapsed,large")},
         ],
         "oracles": [
             {"bin": "oracle_c17", "quick": ("{seed}", "1500", "12"), "thorough": ("{seed}", "3000", "200")},
@@ -74,7 +74,7 @@ PROPS = {
     "C05": {
         "modules": ["Ezpz.Properties.C05", "Ezpz.Real.Kernel", "Ezpz.Real.Dof"],
         "suites": [
-            {"suite": "trace", "quick": (2500, "planted,linear,prio,contra,collapsed,pinned"), "thorough": (24000, "planted,linear,prio,contra,caps,conflict,disparity,collapsed,pinned")},
+            {"suite": "trace", "quick": (2500, "planted,linear,prio,contra,collapsed,pinned,large"), "thorough": (24000, "planted,linear,prio,contra,caps,conflict,disparity,collapsed,pinned,large")},
         ],
         "oracles": [
             {"bin": "oracle_c05.py", "python": True, "quick": ("{seed}", "4000"), "thorough": ("{seed}", "20000")},
@@ -89,7 +89,7 @@ PROPS = {
         "modules": ["Ezpz.Properties.C02", "Ezpz.Real.GaussNewton", "Ezpz.Real.GaussNewton3", "Ezpz.Real.LocalContraction"],
         "suites": [
             {"suite": "kernels", "quick": (750,), "thorough": (10000,)},
-            {"suite": "trace", "quick": (2000, "planted,linear,prio,collapsed,pinned"), "thorough": (18000, "planted,linear,prio,caps,disparity,collapsed,pinned")},
+            {"suite": "trace", "quick": (2000, "planted,linear,prio,collapsed,pinned,large"), "thorough": (18000, "planted,linear,prio,caps,disparity,collapsed,pinned,large")},
         ],
         "oracles": [
             {"bin": "oracle_c02", "quick": ("{seed}", "15000"), "thorough": ("{seed}", "200000")},
@@ -104,7 +104,7 @@ PROPS = {
         "modules": ["Ezpz.Properties.C04", "Ezpz.Real.GaussNewton", "Ezpz.Real.GaussNewton2", "Ezpz.Real.GaussNewton3", "Ezpz.Real.Linear", "Ezpz.Real.LinearConvergence"],
         "suites": [
             {"suite": "kernels", "quick": (750,), "thorough": (10000,)},
-            {"suite": "trace", "quick": (2000, "linear,planted,contra,conflict,collapsed,pinned"), "thorough": (18000, "linear,planted,contra,conflict,prio,caps,collapsed,pinned")},
+            {"suite": "trace", "quick": (2000, "linear,planted,contra,conflict,collapsed,pinned,large"), "thorough": (18000, "linear,planted,contra,conflict,prio,caps,collapsed,pinned,large")},
         ],
         "oracles": [
             {"bin": "oracle_c04.py", "python": True, "quick": ("{seed}", "2000"), "thorough": ("{seed}", "8000")},
@@ -117,7 +117,7 @@ PROPS = {
     "C03": {
         "modules": ["Ezpz.Properties.C03"],
         "suites": [
-            {"suite": "trace", "quick": (2000, "prio,contra,planted,linear,caps,malformed,conflict,disparity,resolve"), "thorough": (18000, "prio,contra,planted,linear,caps,malformed,conflict,disparity,resolve")},
+            {"suite": "trace", "quick": (2000, "prio,contra,planted,linear,caps,malformed,conflict,disparity,resolve,large"), "thorough": (18000, "prio,contra,planted,linear,caps,malformed,conflict,disparity,resolve,large")},
         ],
         "oracles": [
             {"bin": "oracle_c03", "quick": ("{seed}", "7500", "0"), "thorough": ("{seed}", "20000", "1")},
@@ -128,7 +128,7 @@ PROPS = {
     "C14": {
         "modules": ["Ezpz.Properties.C14", "Ezpz.Real.Tolerance"],
         "suites": [
-            {"suite": "trace", "quick": (2000, "caps,prio,planted,contra,collapsed,pinned"), "thorough": (18000, "caps,prio,planted,contra,linear,malformed,collapsed,pinned")},
+            {"suite": "trace", "quick": (2000, "caps,prio,planted,contra,collapsed,pinned,large"), "thorough": (18000, "caps,prio,planted,contra,linear,malformed,collapsed,pinned,large")},
         ],
         "oracles": [
             {"bin": "oracle_c14", "quick": ("{seed}", "1500"), "thorough": ("{seed}", "6000")},
@@ -142,7 +142,7 @@ PROPS = {
         "suites": [
             {"suite": "composite", "quick": (2000,), "thorough": (20000,)},
             {"suite": "kernels", "quick": (750,), "thorough": (10000,)},
-            {"suite": "trace", "quick": (1500, "planted,contra,prio,linear,conflict,disparity,collapsed,pinned,resolve"), "thorough": (15000, "planted,contra,prio,linear,caps,malformed,conflict,disparity,collapsed,pinned,resolve")},
+            {"suite": "trace", "quick": (1500, "planted,contra,prio,linear,conflict,disparity,collapsed,pinned,resolve,large"), "thorough": (15000, "planted,contra,prio,linear,caps,malformed,conflict,disparity,collapsed,pinned,resolve,large")},
         ],
         "oracles": [
             {"bin": "oracle_c01", "quick": ("{seed}", "3000"), "thorough": ("{seed}", "20000")},
@@ -155,7 +155,7 @@ PROPS = {
         "modules": ["Ezpz.Properties.C06"],
         "suites": [
             {"suite": "kernels", "quick": (750,), "thorough": (10000,)},
-            {"suite": "trace", "quick": (2000, "malformed,planted,contra,caps,collapsed"), "thorough": (24000, "malformed,planted,contra,caps,prio,linear,collapsed")},
+            {"suite": "trace", "quick": (2000, "malformed,planted,contra,caps,collapsed,large"), "thorough": (24000, "malformed,planted,contra,caps,prio,linear,collapsed,large")},
         ],
         "oracles": [
             {"bin": "oracle_c06", "quick": ("{seed}", "15000"), "thorough": ("{seed}", "100000")},
@@ -166,7 +166,7 @@ PROPS = {
     "C07": {
         "modules": ["Ezpz.Properties.C07"],
         "suites": [
-            {"suite": "trace", "quick": (2000, "prio,contra,planted,malformed,conflict,collapsed,pinned,resolve"), "thorough": (18000, "prio,contra,planted,malformed,linear,caps,conflict,collapsed,pinned,resolve")},
+            {"suite": "trace", "quick": (2000, "prio,contra,planted,malformed,conflict,collapsed,pinned,resolve,large"), "thorough": (18000, "prio,contra,planted,malformed,linear,caps,conflict,collapsed,pinned,resolve,large")},
         ],
         "oracles": [
             {"bin": "oracle_c07", "quick": ("{seed}", "5000"), "thorough": ("{seed}", "30000")},
@@ -177,7 +177,7 @@ PROPS = {
     "C10": {
         "modules": ["Ezpz.Properties.C10"],
         "suites": [
-            {"suite": "trace", "quick": (1500, "planted,prio,contra,linear,collapsed,pinned,resolve"), "thorough": (15000, "planted,prio,contra,linear,caps,malformed,collapsed,pinned,resolve")},
+            {"suite": "trace", "quick": (1500, "planted,prio,contra,linear,collapsed,pinned,resolve,large"), "thorough": (15000, "planted,prio,contra,linear,caps,malformed,collapsed,pinned,resolve,large")},
         ],
         "oracles": [
             {"bin": "oracle_c10", "quick": ("{seed}", "4000"), "thorough": ("{seed}", "20000"), "digest_twice": True, "second_args": ["rev"]},
@@ -190,7 +190,7 @@ PROPS = {
     "C11": {
         "modules": ["Ezpz.Properties.C11"],
         "suites": [
-            {"suite": "trace", "quick": (1500, "planted,linear,prio,resolve"), "thorough": (15000, "planted,linear,prio,caps,contra,resolve")},
+            {"suite": "trace", "quick": (1500, "planted,linear,prio,resolve,large"), "thorough": (15000, "planted,linear,prio,caps,contra,resolve,large")},
         ],
         "oracles": [
             {"bin": "oracle_c11", "quick": ("{seed}", "3000"), "thorough": ("{seed}", "20000")},
